@@ -598,8 +598,8 @@ def run(chk, p, t):
         "exactness as values, symmetry of lineOfSight as numbers, the Sun-fraction range."
     )
     chk.assumptions += ["getAzimuth returns an angle in [0, 2pi) (wrapAngle2Pi), getElevation in [-pi/2, pi/2]", "mask limits lie in [0, 2pi] (enforced by the az_mask setter)"]
-    for fn in (rule_r1, rule_r2, rule_r3, rule_r4, rule_r5, rule_r6, rule_r7, rule_r8):
-        rid = "C14.R" + fn.__name__[-1]
+    for fn in (rule_r1, rule_r2, rule_r3, rule_r4, rule_r5, rule_r6, rule_r7, rule_r8, rule_r11):
+        rid = "C14.R" + fn.__name__.split("_r")[-1]
         if not chk.wants(rid):
             continue
         try:
@@ -607,6 +607,185 @@ def run(chk, p, t):
         except (Undecided, AnchorError) as e:
             rr = chk.rule(rid + ".x", fn.__name__, 0, "-")
             (rr.undecided if isinstance(e, Undecided) else rr.error)(fn.__name__, str(e))
+
+
+def rule_r11(chk, p, t, rid="C14.R11"):
+    r = chk.rule(
+        rid,
+        "the arccos domain guard absorbs the rounding of a normalised dot product",
+        1,
+        "the conic field-of-view test is subtendedAngle(target, boresight, safe=True) <= half-angle, and the cosine it "
+        "takes the arccos of, vdot(a, b) / (norm(a) * norm(b)), passes through seven roundings: for a target on the "
+        "boresight it exceeds 1 by up to 2 units in the last place (1.0000000000000004 occurs for about 0.2 % of "
+        "directions).  safeArccos must clip such values instead of raising, or a target exactly on the boresight is "
+        "rejected for some directions and accepted for the rotated ones (reflexivity, rotation invariance).  The "
+        "interval of |arg| > 1 on which safeArccos clips is read off its path conditions (comparisons of |arg| against "
+        "constants, `fpe_equals` inlined, numpy's finfo constants folded) and must contain 1 + 2 ulp; the conic test "
+        "must call the guarded form",
+        "a worst-case rounding bound (the classical 10 u bound is not attained); the value of the angle",
+    )
+    from fractions import Fraction
+
+    from rsa.cfg import cfg_of
+    from rsa.terms import const_value
+
+    MATHS = "resonaate.physics.maths"
+    fn = p.func(f"{MATHS}.safeArccos")
+    EPS = Fraction(1, 2**52)
+    SPECIAL = {"finfo(float).eps": EPS, "finfo(float64).eps": EPS, "finfo(float).resolution": Fraction(1, 10**15), "finfo(float64).resolution": Fraction(1, 10**15), "spacing(1.0)": EPS, "spacing(1)": EPS}
+
+    def fold(e, table):
+        txt = unparse(e)
+        if txt in SPECIAL:
+            return SPECIAL[txt]
+        if isinstance(e, ast.BinOp):
+            a, b = fold(e.left, table), fold(e.right, table)
+            if a is None or b is None:
+                return None
+            try:
+                return {ast.Add: lambda: a + b, ast.Sub: lambda: a - b, ast.Mult: lambda: a * b, ast.Div: lambda: a / b}[type(e.op)]()
+            except (KeyError, ZeroDivisionError):
+                return None
+        return const_value(e, table)
+
+    mod = p.module(MATHS)
+    table = {}
+    for k, v in mod.assigns.items():
+        val = fold(v, table)
+        if val is not None:
+            table[k] = val
+
+    def one():
+        arg = fn.params[0]
+        cfg = cfg_of(fn)
+        clips = [n for n in cfg.nodes if n.kind == "return" and n.ast.value is not None and any(isinstance(c, ast.Call) and call_name(c) in ("clip", "sign", "copysign", "minimum", "maximum", "min", "max") for c in ast.walk(n.ast.value))]
+        require(len(clips) >= 1, "safeArccos has no clipping return", fn.node)
+        # locals (walrus included) as expressions of the parameter
+        defs = {}
+        for n in walk_no_nested(fn.node):
+            if isinstance(n, ast.NamedExpr) and isinstance(n.target, ast.Name):
+                defs[n.target.id] = n.value
+            elif isinstance(n, ast.Assign) and len(n.targets) == 1 and isinstance(n.targets[0], ast.Name):
+                defs[n.targets[0].id] = n.value
+
+        import copy
+
+        def norm_(e, depth=0):
+            """expression -> ('F', a, b) meaning a * |arg| + b, ('absF1', c) meaning |(|arg| - 1)| * c..., or a constant"""
+            if isinstance(e, ast.NamedExpr):
+                return norm_(e.value, depth)
+            if isinstance(e, ast.Name) and e.id in defs and depth < 6:
+                return norm_(defs[e.id], depth + 1)
+            c = fold(e, table)
+            if c is not None:
+                return ("F", Fraction(0), c)
+            if isinstance(e, ast.Call) and call_name(e) in ("fabs", "abs", "absolute") and len(e.args) == 1:
+                inner = e.args[0]
+                if isinstance(inner, ast.Name) and inner.id == arg:
+                    return ("F", Fraction(1), Fraction(0))
+                v = norm_(inner, depth)
+                if v and v[0] == "F" and v[1] != 0:
+                    return ("absF", v[1], v[2])  # |a F + b|
+                return None
+            if isinstance(e, ast.BinOp) and isinstance(e.op, (ast.Add, ast.Sub)):
+                a, b = norm_(e.left, depth), norm_(e.right, depth)
+                if a and b and a[0] == "F" and b[0] == "F":
+                    sgn = 1 if isinstance(e.op, ast.Add) else -1
+                    return ("F", a[1] + sgn * b[1], a[2] + sgn * b[2])
+                return None
+            if isinstance(e, ast.UnaryOp) and isinstance(e.op, ast.USub):
+                a = norm_(e.operand, depth)
+                return ("F", -a[1], -a[2]) if a and a[0] == "F" else None
+            return None
+
+        def bound(test, lab):
+            """Constraint on F = |arg| (for F > 1) as (kind, value, strict): kind 'ub' F < v / F <= v, 'lb'."""
+            if isinstance(test, ast.Call) and call_name(test) == "fpe_equals" and len(test.args) == 2:
+                fe = p.func(f"{MATHS}.fpe_equals")
+                rets = [n for n in walk_no_nested(fe.node) if isinstance(n, ast.Return) and n.value is not None]
+                require(len(rets) == 1, "fpe_equals: single return expected", fe.node)
+                sub = {fe.params[0]: test.args[0], fe.params[1]: test.args[1]}
+
+                class S(ast.NodeTransformer):
+                    def visit_Name(self, n):
+                        return copy.deepcopy(sub[n.id]) if n.id in sub else n
+
+                return bound(S().visit(copy.deepcopy(rets[0].value)), lab)
+            if isinstance(test, ast.UnaryOp) and isinstance(test.op, ast.Not):
+                return bound(test.operand, not lab)
+            if not (isinstance(test, ast.Compare) and len(test.ops) == 1):
+                return None
+            L, R = norm_(test.left), norm_(test.comparators[0])
+            if L is None or R is None:
+                return None
+            op = type(test.ops[0])
+            if R[0] != "F":
+                L, R = R, L
+                op = {ast.Lt: ast.Gt, ast.LtE: ast.GtE, ast.Gt: ast.Lt, ast.GtE: ast.LtE}.get(op, op)
+            if R[0] != "F" or R[1] != 0:
+                if L[0] == "F" and R[0] == "F":
+                    L, R = ("F", L[1] - R[1], L[2] - R[2]), ("F", Fraction(0), Fraction(0))
+                else:
+                    return None
+            c = R[2]
+            if not lab:
+                op = {ast.Lt: ast.GtE, ast.LtE: ast.Gt, ast.Gt: ast.LtE, ast.GtE: ast.Lt}.get(op)
+            if op is None:
+                return None
+            if L[0] == "absF":
+                a, b = L[1], L[2]
+                # |a F + b| op c with F > 1: for a > 0 and a + b >= 0 the inside is positive
+                if a > 0 and a + b >= 0:
+                    L = ("F", a, b)
+                else:
+                    return None
+            a, b = L[1], L[2]
+            if a == 0:
+                return None
+            v = (c - b) / a
+            if a < 0:
+                op = {ast.Lt: ast.Gt, ast.LtE: ast.GtE, ast.Gt: ast.Lt, ast.GtE: ast.LtE}[op]
+            return {ast.Lt: ("ub", v, True), ast.LtE: ("ub", v, False), ast.Gt: ("lb", v, True), ast.GtE: ("lb", v, False)}[op]
+
+        need = 1 + 2 * EPS
+        verdicts = []
+        for node in clips:
+            for conds in cfg.path_conditions(node.id):
+                ub = None
+                unknown = []
+                for cn, lab in conds:
+                    if cn.kind != "cond":
+                        continue
+                    b = bound(cn.ast, lab)
+                    if b is None:
+                        unknown.append(unparse(cn.ast))
+                    elif b[0] == "ub" and (ub is None or (b[1], not b[2]) < (ub[0], not ub[1])):
+                        ub = (b[1], b[2])
+                verdicts.append((ub, unknown, node))
+        require(verdicts, "no path reaches the clipping return", fn.node)
+        # the clipping region is the union over the paths; one path that covers 1 + 2 ulp suffices
+        def covers(ub):
+            return ub is None or need < ub[0] or (need == ub[0] and not ub[1])
+
+        good = [v for v in verdicts if not v[1] and covers(v[0])]
+        if good:
+            ub = good[0][0]
+            r.ok(fn.qualname, "clips |arg| in (1, " + (f"1 + {float(ub[0] - 1):.3g}" + (")" if ub[1] else "]") if ub else "inf)") + " - contains 1 + 2 ulp", fn.loc(good[0][2].ast))
+        elif any(v[1] for v in verdicts):
+            u = next(v[1] for v in verdicts if v[1])
+            r.undecided(fn.qualname, f"condition(s) {u} on the way to the clipping return are not comparisons of |{arg}| with constants", fn.loc())
+        else:
+            ub = max((v[0] for v in verdicts), key=lambda x: x[0])
+            r.violation(
+                fn.qualname,
+                f"arccos-guard:{float(ub[0] - 1):.3g}",
+                f"safeArccos clips only |{arg}| {'<' if ub[1] else '<='} 1 + {float(ub[0] - 1):.3g} ({float((ub[0] - 1) / EPS):.2f} ulp): the cosine of the angle between a "
+                "direction and itself, vdot(a, a) / (norm(a) * norm(a)), reaches 1 + 2 ulp = 1.0000000000000004, so a target exactly on the "
+                "boresight raises for some directions (the conic field of view is not reflexive)",
+                fn.loc(),
+            )
+
+    r.guard(fn.qualname, one)
 
 
 def rule_r6(chk, p, t, rid="C14.R6"):
